@@ -64,6 +64,9 @@ package tls
 //@   unchecked safety pre
 //@   note unchecked: thin contract; panic-freedom of this upstream function and the preconditions of its callees are listed assumptions
 //@   requires c != nil && hello != nil
+//@   at before call mutualCipherSuite#0: assert resumed_checked12: called(VerifyHostname, 0) || c.config.InsecureSkipVerify || c.config.InsecureServerNameToVerify == "*" || (len(c.config.InsecureServerNameToVerify) == 0 && len(c.config.ServerName) == 0)
+//@   at before call time#1: assert resumed_checked13: called(VerifyHostname, 0) || c.config.InsecureSkipVerify || c.config.InsecureServerNameToVerify == "*" || (len(c.config.InsecureServerNameToVerify) == 0 && len(c.config.ServerName) == 0)
+//@   note resumed_checked12/13 (C14, C19): a cached session gets past the certificate block only if its leaf went through VerifyHostname, or verification is switched off (InsecureSkipVerify), or no name is to be checked ("*", or neither name configured)
 //@   at before call VerifyHostname#0: assert resumed_name: c.config.InsecureServerNameToVerify != "*" && arg1 == ite(len(c.config.InsecureServerNameToVerify) == 0, c.config.ServerName, c.config.InsecureServerNameToVerify)
 //@   loop 0 invariant -1 <= $rangeindex
 //@   loop 1 invariant -1 <= $rangeindex
